@@ -2658,6 +2658,11 @@ impl Connection {
 
                 self.events.push_back(Event::Connected);
                 self.state = State::Established;
+                // PTO computation skips the application data space while the state is still
+                // `Handshake`, which it was when the timer was last set above. Re-arm it so that
+                // application data sent before the handshake completed (0.5-RTT or 0-RTT) is
+                // covered even if nothing new can be sent right now.
+                self.set_loss_detection_timer(now);
                 trace!("established");
                 Ok(())
             }
